@@ -6,6 +6,7 @@
 //!     w,H,t,id,cb,data   d,H,t,id,cb   r,H,t,id   p,H,t,id,cb,off,len   l,H,t
 //!     s,path,data  plant a file in the cache dir     x,path  delete a file / symlink of the cache dir
 //!     m,path  plant a DIRECTORY (mkdir -p)     k,path  plant a DANGLING SYMLINK     t,path,n  cut a regular file to its first n bytes
+//!     y,path,data  plant a SYMLINK to a regular file (outside the cache dir) holding data
 //!     f  cache-dir layout      b  backend contents
 //! Direct oracles: a shadow `MemBackend` receives every operation uncached — the real store must always equal
 //! the shadow's; results through the cached handle must equal the shadow's whenever the file's type has been
@@ -54,7 +55,11 @@ fn layout(root: &Path) -> String {
             } else if ft.is_file() {
                 out.push(format!("{r}:{}", e.metadata().map(|m| m.len()).unwrap_or(0)));
             } else if ft.is_symlink() {
-                out.push(format!("{r}@"));
+                // dangling: `path@`; to a regular file: `path@<size>`
+                match std::fs::metadata(e.path()) {
+                    Ok(m) if m.is_file() => out.push(format!("{r}@{}", m.len())),
+                    _ => out.push(format!("{r}@")),
+                }
             }
         }
     }
@@ -113,6 +118,7 @@ fn hist(steps: &str) -> String {
     let cached = rustic_core::verif::cache::cached_backend(Arc::new(be.clone()), cache);
     // dirty[t]: the cache dir or the repository changed behind the cached handle since its last listing of t
     let mut dirty = [false; 5];
+    let mut n_stash = 0usize;
     let mut fail: Option<String> = None;
     let mut out = Vec::new();
     for s in steps.split(';') {
@@ -166,6 +172,24 @@ fn hist(steps: &str) -> String {
                     Err(_) => "err".into(),
                 }
             }
+            ["y", path, data] => {
+                // a SYMLINK TO A REGULAR FILE planted in the cache dir: the file (holding `data`) lies outside the cache dir, one per link
+                let Some(data) = data_of(data) else { return "bad-op".into() };
+                if !good_path(path) {
+                    return "bad-op".into();
+                }
+                let p = croot.join(path);
+                if let Some(par) = p.parent() {
+                    _ = std::fs::create_dir_all(par);
+                }
+                n_stash += 1;
+                let target = tmp.path().join(format!("stash{n_stash}"));
+                dirty = [true; 5];
+                match std::fs::write(&target, data).and_then(|()| std::os::unix::fs::symlink(&target, &p)) {
+                    Ok(()) => "ok".into(),
+                    Err(_) => "err".into(),
+                }
+            }
             ["t", path, n] => {
                 // truncate a regular file of the cache dir to its first n bytes (no-op when it is shorter / not a file)
                 let Ok(n) = n.parse::<usize>() else { return "bad-op".into() };
@@ -201,7 +225,8 @@ fn hist(steps: &str) -> String {
                     let ep = croot.join(t.dirname()).join(&hex_id[0..2]).join(hex_id.as_str());
                     let stored = be.store().get(&(ft_idx(t), id)).cloned();
                     sound = !cache_on
-                        || match std::fs::symlink_metadata(&ep) {
+                        || match std::fs::metadata(&ep) {
+                            // (follows symlinks, as the cache reads do)
                             Err(_) => true,
                             Ok(m) if m.is_file() => {
                                 let b = std::fs::read(&ep).unwrap_or_default();
@@ -256,7 +281,7 @@ fn hist(steps: &str) -> String {
                                 if !e.path().is_file() || sub.file_name().to_string_lossy() != name[..2] {
                                     continue;
                                 }
-                                let sz = e.metadata().map(|m| m.len()).unwrap_or(0);
+                                let sz = std::fs::metadata(e.path()).map(|m| m.len()).unwrap_or(0);
                                 match list.get(&id) {
                                     None => fail = fail.or(Some("oracle-fail:stale-cache-file-after-listing".into())),
                                     Some(n) if u64::from(*n) != sz => {
@@ -319,6 +344,7 @@ pub fn repo_level(seed: u64) -> String {
     let opts_of = |cached: bool| if cached { cached_opts.clone() } else { uncached_opts.clone() };
     let mut sources: Vec<(Id, MemSource)> = Vec::new();
     let mut n_snap = 0usize;
+    let mut n_stash = 0usize;
     let steps = 4 + rng.below(5);
     for step in 0..steps {
         let cached = rng.chance(1, 2);
@@ -334,7 +360,19 @@ pub fn repo_level(seed: u64) -> String {
                 }
                 files.sort();
                 for f in files {
-                    match rng.below(8) {
+                    match rng.below(11) {
+                        5 | 6 => {
+                            // a symlink to a copy (5: intact, 6: cut to half) in place of the entry
+                            if f.is_file() && !f.is_symlink() {
+                                let d = std::fs::read(&f).unwrap_or_default();
+                                n_stash += 1;
+                                let target = tmp.path().join(format!("stash{n_stash}"));
+                                let keep = if rng.chance(1, 2) { d.len() } else { d.len() / 2 };
+                                if std::fs::write(&target, &d[..keep]).is_ok() && std::fs::remove_file(&f).is_ok() {
+                                    _ = std::os::unix::fs::symlink(&target, &f);
+                                }
+                            }
+                        }
                         0 => {
                             let d = std::fs::read(&f).unwrap_or_default();
                             _ = std::fs::write(&f, &d[..d.len() / 2]);
@@ -552,10 +590,14 @@ pub fn generate(thorough: bool, rng: &mut Rng, ops: &mut Vec<String>, stats: &mu
                 if rng.chance(2, 3) {
                     stats.hit("alt.dir-at-entry");
                     steps.push(format!("m,{dir}/{}/{rid}", &rid[..2]));
-                } else {
+                } else if rng.chance(1, 2) {
                     // ... or a dangling symlink (gone with the next cache write / removal of that file)
                     stats.hit("alt.link-at-entry");
                     steps.push(format!("k,{dir}/{}/{rid}", &rid[..2]));
+                } else {
+                    // ... or a symlink to a foreign file of a size no version of that file ever has (a stale "entry")
+                    stats.hit("alt.link-to-file-at-entry");
+                    steps.push(format!("y,{dir}/{}/{rid},g{}.{}", &rid[..2], rng.below(1 << 30), 1000 + rng.below(1000)));
                 }
             }
             match rng.below(5) {
@@ -589,6 +631,8 @@ pub fn generate(thorough: bool, rng: &mut Rng, ops: &mut Vec<String>, stats: &mu
         let mut pool: Vec<String> = Vec::new();
         let mut written: Vec<(u8, String, usize)> = Vec::new();
         let mut sizes_used: Vec<(u8, String, usize)> = Vec::new();
+        // the data token of the last write of each key (to plant intact copies)
+        let mut tokens: Vec<(u8, String, String)> = Vec::new();
         let mut steps: Vec<String> = Vec::new();
         let dirs = ["config", "index", "keys", "snapshots", "data"];
         for _ in 0..n {
@@ -641,6 +685,8 @@ pub fn generate(thorough: bool, rng: &mut Rng, ops: &mut Vec<String>, stats: &mu
                     stats.hit(format!("op.write.{h}"));
                     written.retain(|(a, b, _)| !(*a == t && *b == id));
                     written.push((t, id.clone(), len));
+                    tokens.retain(|(a, b, _)| !(*a == t && *b == id));
+                    tokens.push((t, id.clone(), data.clone()));
                     steps.push(format!("w,{h},{t},{id},{},{data}", cb_of(t, &id)));
                 }
                 5 | 6 => {
@@ -684,7 +730,38 @@ pub fn generate(thorough: bool, rng: &mut Rng, ops: &mut Vec<String>, stats: &mu
                     let (t2, id, len) = known(rng, &written, &mut pool, t);
                     let dir = dirs[t2 as usize];
                     let proper = format!("{dir}/{}/{id}", &id[..2]);
-                    match rng.below(18) {
+                    match rng.below(20) {
+                        18 => {
+                            // a SYMLINK TO A REGULAR FILE at the proper entry path: an intact copy of the last version written, or
+                            // foreign bytes of a size no version has (a stale / wrong-sized "entry" that a listing must remove)
+                            if let Some((_, _, tok)) = tokens.iter().find(|(a, b, _)| *a == t2 && *b == id).filter(|_| rng.chance(1, 3)) {
+                                stats.hit("plant.link-to-copy-at-entry");
+                                steps.push(format!("y,{proper},{tok}"));
+                            } else {
+                                stats.hit("plant.link-to-stale-at-entry");
+                                let n = unused_size(&sizes_used, t2, &id, rng.below(200) as usize);
+                                sizes_used.push((t2, id.clone(), n));
+                                steps.push(format!("y,{proper},g{}.{n}", rng.below(1 << 30)));
+                            }
+                        }
+                        19 => match rng.below(3) {
+                            0 => {
+                                // the next cache write of that id goes THROUGH the link and the link becomes the entry
+                                stats.hit("plant.link-to-file-at-tmp-path");
+                                steps.push(format!("y,{proper}-tmp-,0707"));
+                            }
+                            1 => {
+                                stats.hit("plant.link-to-file-at-parent");
+                                steps.push(format!("y,{dir}/{},01", &id[..2]));
+                            }
+                            _ => {
+                                stats.hit("plant.link-to-stale-at-fresh-entry");
+                                let id = fresh(rng, &mut pool);
+                                let n = rng.below(300) as usize;
+                                sizes_used.push((t2, id.clone(), n));
+                                steps.push(format!("y,{dir}/{}/{id},g{}.{n}", &id[..2], rng.below(1 << 30)));
+                            }
+                        },
                         16 => {
                             // a regular FILE where a parent directory of the entry path belongs (`<type>/<xx>`, rarely `<type>`):
                             // nothing below can be cached any more (fails when the directory already exists)
